@@ -1,13 +1,127 @@
 import Rooc.Wire
 import Rooc.Oracle
+import Rooc.Pre.Wire
+import Rooc.Pre.IterWire
 namespace Rooc.Drv.C06
-open Rooc Sexp
+open Rooc Sexp Rooc.Pre
 
-/-- model requests for C06 (run at `Float` for the exact diff, at `Ext Rat` as oracle). -/
-def handle (α : Type) [Arith α] [Wire α] : List Sexp → Sexp
+def decInts (xs : List Sexp) : Option (List Int) :=
+  optAll (xs.map fun | .atom s => decInt s | _ => none)
+def encInt (i : Int) : Sexp := .atom (toString i)
+def encNatRow (r : List Int) : Sexp := .list (r.map encInt)
+
+partial def decTree : Sexp → Option (Tree Int)
+  | .list [.atom "leaf", .atom s] => (decInt s).map .leaf
+  | .list (.atom "node" :: cs) => (optAll (cs.map decTree)).map .node
+  | _ => none
+partial def encTree : Tree Int → Sexp
+  | .leaf v => app "leaf" [encInt v]
+  | .node cs => app "node" (cs.map encTree)
+
+/-- one printed index fragment; `none` = `WrongExpectedArgument` -/
+def decFrag : Sexp → Option (Option String)
+  | .list [.atom "numtext", .str s] => some (some s)
+  | .list [.atom "int", .atom s] => (decInt s).map (fun i => some (toString i))
+  | .list [.atom "pint", .atom s] => s.toNat?.map (fun n => some (toString n))
+  | .list [.atom "bool", .atom "true"] => some (some "T")
+  | .list [.atom "bool", .atom "false"] => some (some "F")
+  | .list [.atom "str", .str s] => some (some s)
+  | .list [.atom "node", .str s] => some (some s)
+  | .list [.atom "other", _] => some none
+  | _ => none
+
+def handleF : List Sexp → Sexp
+  | [.atom "fold", .atom kind, .list leaves] =>
+    match AggKind.ofName kind, (optAll (leaves.map Exp.dec) : Option (List (Exp Float))) with
+    | some k, some xs => (match aggregate k xs with | some e => app "ok" [e.enc] | none => app "err" [.atom "Unexpected", .atom "token"])
+    | _, _ => app "err" [.atom "decode"]
+  | [.atom "range", .atom lo, .atom hi, .atom inc] =>
+    match decInt lo, decInt hi with
+    | some lo, some hi => app "ok" ((rangeVals lo hi (inc == "true")).map (fun i => .list [encInt i]))
+    | _, _ => app "err" [.atom "decode"]
+  | [.atom "enumerate", .list xs] =>
+    match decInts xs with
+    | some xs => app "ok" ((enumerate xs).map (fun (p : Int × Nat) => .list [encInt p.1, encInt p.2]))
+    | none => app "err" [.atom "decode"]
+  | .atom "zip" :: ls =>
+    match optAll (ls.map fun | .list xs => decInts xs | _ => none) with
+    | some ls => app "ok" ((zip ls).map encNatRow)
+    | none => app "err" [.atom "decode"]
+  | [.atom "setfn", .atom f, .list a, .list b] =>
+    match decInts a, decInts b with
+    | some a, some b =>
+      let fa : List Float := a.map Arith.ofInt
+      let fb : List Float := b.map Arith.ofInt
+      let r := match f with | "union" => setUnion fa fb | "intersection" => setInter fa fb | _ => setDiff fa fb
+      app "ok" (r.map (fun x => .list [encInt (Arith.toI64 x)]))
+    | _, _ => app "err" [.atom "decode"]
+  | [.atom "setfn-mixed", .atom "intersection", .list a, .list b] =>
+    match decInts a, (optAll (b.map decNumS) : Option (List Float)) with
+    | some a, some fb =>
+      let fa : List Float := a.map Arith.ofInt
+      app "ok" ((setInter fa fb).map (fun x => .list [encInt (Arith.toI64 x)]))
+    | _, _ => app "err" [.atom "decode"]
+  | [.atom "flatten", .str name, .list frags] =>
+    match optAll (frags.map decFrag) with
+    | some fs => (match optAll fs with
+      | some strs => app "ok" [.str (flattenCompound name strs)]
+      | none => app "err" [.atom "WrongExpectedArgument"])
+    | none => app "err" [.atom "decode"]
+  | [.atom "read", t, .list idx] =>
+    match decTree t, decInts idx with
+    | some t, some idx =>
+      (match t.read (idx.map Int.toNat) with
+       | .ok none => app "ok" [.atom "undefined"]
+       | .ok (some r) => app "ok" [encTree r]
+       | .error _ => app "err" [.atom "OutOfBounds"])
+    | _, _ => app "err" [.atom "decode"]
+  | [.atom "expandme", e] =>
+    match ME.dec e with
+    | some e => (match (expand [] e : Except IErr (Exp Float)) with | .ok x => app "ok" [x.enc] | .error _ => app "err" [])
+    | none => app "err" [.atom "decode"]
+  | [.atom "unrolltext", e] =>
+    match ME.dec e with
+    | some e => (match unroll [] e with | .ok u => app "ok" [.str u.text] | .error _ => app "err" [])
+    | none => app "err" [.atom "decode"]
   | _ => app "err" [.atom "bad-request"]
 
-/-- exact oracle: the PROPERTY evaluated on the implementation's own answer. -/
+def handle (α : Type) [Arith α] [Wire α] (args : List Sexp) : Sexp := handleF args
+
+/-! ### exact oracle: the value of the implementation's folded tree is the aggregate of the values -/
+
+/-- test assignment: `x_i ↦ (i + 2) / 3`, `b_i ↦ i mod 2` -/
+def rho (name : String) : Rat :=
+  let i : Nat := (match name.splitOn "_" with | [_, d] => d.toNat?.getD 0 | _ => 0)
+  if name.startsWith "b" then ((i % 2 : Nat) : Rat) else ((i : Rat) + 2) / 3
+
+def expected (kind : String) (vs : List Rat) : Option Rat :=
+  match kind with
+  | "sum" => some (vs.foldl (· + ·) 0)
+  | "prod" => some (vs.foldl (· * ·) 1)
+  | "avg" => if vs.isEmpty then none else some (vs.foldl (· + ·) 0 / (vs.length : Rat))
+  | "min" => (match vs with | x :: xs => some (xs.foldl (fun a b => if b < a then b else a) x) | [] => none)
+  | "max" => (match vs with | x :: xs => some (xs.foldl (fun a b => if a < b then b else a) x) | [] => none)
+  | "all" => some (if vs.all (· != 0) then 1 else 0)
+  | "any" => some (if vs.any (· != 0) then 1 else 0)
+  | "abs" => (match vs with | [x] => some (if x < 0 then -x else x) | _ => none)
+  | _ => none
+
 def oracle : List Sexp → Sexp
+  | [.atom "fold-value", .atom kind, .list leaves, .list [.atom "ok", tree]] =>
+    match (optAll (leaves.map Exp.dec) : Option (List (Exp (Ext Rat)))), (Exp.dec tree : Option (Exp (Ext Rat))) with
+    | some ls, some t =>
+      (match Sem.evalList rho ls with
+       | none => app "err" [.atom "leaves-undefined"]
+       | some vs =>
+         let got := Sem.eval rho t
+         if kind == "xor" then
+           -- parity of the truth values (a single operand keeps its own value)
+           let par := (vs.map (· != 0)).foldl (· != ·) false
+           match got with
+           | some r => if (r != 0) == par then app "ok" [] else app "violation" [.atom "fold-value-differs", .atom kind]
+           | none => app "violation" [.atom "fold-value-undefined", .atom kind]
+         else if got == expected kind vs then app "ok" []
+         else app "violation" [.atom "fold-value-differs", .atom kind, .atom (toString (repr got)), .atom (toString (repr (expected kind vs)))])
+    | _, _ => app "err" [.atom "decode"]
   | _ => app "err" [.atom "bad-request"]
 end Rooc.Drv.C06
